@@ -452,8 +452,27 @@ func main() {
 		_ = w.Close()
 		data := w.Bytes()
 		cp := append([]byte(nil), data...)
+		damaged := ""
+		if r.Chance(30) && len(cp) > 4 {
+			// the reused reader is first handed a damaged chunk (a torn tail, a flipped byte, or bytes that were never a
+			// chunk): whatever it answers to that, the intact chunk after it decodes to what was written
+			bad := append([]byte(nil), cp...)
+			switch r.Intn(3) {
+			case 0:
+				bad = bad[:len(bad)-1-r.Intn(3)]
+				damaged = "torn"
+			case 1:
+				bad[r.Intn(len(bad))] ^= 0x5a
+				damaged = "flipped"
+			default:
+				bad = []byte("not a snappy chunk at all")
+				damaged = "garbage"
+			}
+			_, _ = rd.Uncompress(bad)
+			out.Count("snappy-damaged-chunk-first")
+		}
 		got, err := rd.Uncompress(cp)
-		idx := out.Case(map[string]interface{}{"kind": "snappy", "len": n, "seq": i}, n > 1)
+		idx := out.Case(map[string]interface{}{"kind": "snappy", "len": n, "seq": i, "damaged_chunk_first": damaged}, n > 1)
 		out.Count("snappy")
 		if err != nil || !bytes.Equal(got, src) {
 			out.Violation(idx, "snappy-roundtrip", fmt.Sprintf("len %d err %v", n, err), nil)
